@@ -165,6 +165,9 @@ func (tw *tokenWorld) exchange(ch *kernel.Chooser) string {
 		}
 	}
 	scopes := ch.Subset([]string{oidc.ScopeOpenID, oidc.ScopeEmail, oidc.ScopeProfile, "api"})
+	if requested == string(oidc.IDTokenType) && ch.Bool(1, 3) {
+		scopes = nil // an ID token is asked for without naming any scope
+	}
 	if len(scopes) > 0 {
 		form.Set("scope", strings.Join(scopes, " "))
 	}
@@ -240,6 +243,23 @@ func (tw *tokenWorld) exchange(ch *kernel.Chooser) string {
 		}
 	}
 	issued := tr.IssuedTokenType
+	if issued == string(oidc.IDTokenType) || tr.IDToken != "" {
+		// an ID token came out: its user claims (and the act claim, and the last word on a refusal) are the storage's,
+		// asked through SetUserinfoFromTokenExchangeRequest - whatever the scope list looks like
+		consulted := false
+		for _, j := range w.Store.JournalFor(r.Ex.ID) {
+			if j.Method == "SetUserinfoFromTokenExchangeRequest" {
+				consulted = true
+			}
+		}
+		tw.o.Probe("exchanges-that-issued-an-id-token")
+		if len(tr.ScopeList()) == 0 {
+			tw.o.Probe("id-token-exchanges-with-an-empty-scope-list")
+		}
+		if !consulted {
+			tw.viol("C15", "policy-skipped", "token-exchange/id-token-userinfo", "%s: an ID token was issued (scope %v) without the storage's SetUserinfoFromTokenExchangeRequest having been asked: act claim, user claims and a possible refusal are the storage policy's", desc, tr.ScopeList())
+		}
+	}
 	if tr.AccessToken == "" {
 		tw.viol("C15", "empty-token", "token-exchange/"+strings.TrimPrefix(issued, "urn:ietf:params:oauth:token-type:"), "%s: success response without a token (issued_token_type=%q)", desc, issued)
 		return desc + " EMPTY"
